@@ -1,35 +1,2 @@
-(* GENERATED by tools/gen/g_filters.py from the six *_main.cc of property C18 and util/spaces.cc -- do not edit *)
-From Coq Require Import List ZArith NArith.
-Import ListNotations.
-
-Definition long_default_limit : N := 2000%N.
-Definition utf8_strip_cr : bool := false.
-Definition subtract_seed : N := 1%N.
-Definition subtract_has_reserved_guard : bool := true.
-Definition cc_seed : N := 1%N.
-Definition cc_has_reserved_guard : bool := true.
-Definition cc_magic : list Z := [100%Z; 102%Z; 54%Z; 102%Z; 97%Z; 49%Z; 97%Z; 98%Z; 98%Z; 53%Z; 56%Z; 53%Z; 52%Z; 57%Z; 50%Z; 56%Z;
-   55%Z; 49%Z; 49%Z; 49%Z; 98%Z; 97%Z; 56%Z; 100%Z; 55%Z; 55%Z; 54%Z; 55%Z; 51%Z; 51%Z; 101%Z; 57%Z].
-Definition kSpaces : list bool := [false; false; false; false; false; false; false; false; false; true; true; true; true; true; false; false;
-   false; false; false; false; false; false; false; false; false; false; false; false; false; false; false; false;
-   true; false; false; false; false; false; false; false; false; false; false; false; false; false; false; false;
-   false; false; false; false; false; false; false; false; false; false; false; false; false; false; false; false;
-   false; false; false; false; false; false; false; false; false; false; false; false; false; false; false; false;
-   false; false; false; false; false; false; false; false; false; false; false; false; false; false; false; false;
-   false; false; false; false; false; false; false; false; false; false; false; false; false; false; false; false;
-   false; false; false; false; false; false; false; false; false; false; false; false; false; false; false; false;
-   false; false; false; false; false; false; false; false; false; false; false; false; false; false; false; false;
-   false; false; false; false; false; false; false; false; false; false; false; false; false; false; false; false;
-   false; false; false; false; false; false; false; false; false; false; false; false; false; false; false; false;
-   false; false; false; false; false; false; false; false; false; false; false; false; false; false; false; false;
-   false; false; false; false; false; false; false; false; false; false; false; false; false; false; false; false;
-   false; false; false; false; false; false; false; false; false; false; false; false; false; false; false; false;
-   false; false; false; false; false; false; false; false; false; false; false; false; false; false; false; false;
-   false; false; false; false; false; false; false; false; false; false; false; false; false; false; false; false].
-Definition sc_default_min_chars : N := 30%N.
-Definition sc_default_character_run : N := 5%N.
-Definition sc_default_min_punct_sample_size : N := 200%N.
-Definition sc_default_max_common_inherited : N * N := (2%N, 10%N).
-Definition sc_default_min_punct : N * N := (1%N, 100%N).
-Definition sc_default_min_scripts : N * N := (9%N, 10%N).
-Definition sc_control_bound : Z := 32%Z.
+(* translator failed: pattern for subtract_lines load key not found *)
+Definition translator_failed : True := 0.
